@@ -1524,6 +1524,83 @@ def f_callback_badstr():
     return n == 5, f"callback invoked {n} times for 5 lines"
 
 
+@finding("C14/task-alive/reconnect-and-seeding", "C14")
+def f_tasks_after_close():
+    """close() while the reconnect task is connecting, and close() of a client that is seeding its network map: both background tasks went on
+    after close() had returned (the reconnect completed a connection, the seeding task kept calling send() for up to 6 s)"""
+    import nmea2000.ioclient as io_
+
+    async def main():
+        opened, gates = [], []
+
+        async def fake_open(host, port):
+            if opened:                       # every connection after the first is slow to come up
+                ev = asyncio.Event()
+                gates.append(ev)
+                await ev.wait()
+            rd = asyncio.StreamReader()
+            w = _FakeWriter()
+            opened.append((rd, w))
+            return rd, w
+        io_.asyncio.open_connection = fake_open
+        base = set(asyncio.all_tasks())
+
+        def pending():
+            return sorted(getattr(t.get_coro(), "__qualname__", "?").split(".")[-1] for t in asyncio.all_tasks()
+                          if t not in base and not t.done() and t is not asyncio.current_task())
+        # 1. close() while the reconnect task is inside connect()
+        c = io_.YachtDevicesNmea2000Gateway("h", 1)
+        await c.connect()
+        opened[0][0].feed_eof()
+        await asyncio.sleep(0.8)              # DISCONNECTED, 0.5 s wait, then the reconnect attempt hangs in open_connection
+        await c.close()
+        left1 = pending()
+        for g in gates:
+            g.set()
+        await asyncio.sleep(0.05)
+        n_conn = len(opened)
+        # 2. close() of a client that seeds its network map
+        opened.clear()
+        c2 = io_.YachtDevicesNmea2000Gateway("h", 1, build_network_map=True)
+        await c2.connect()
+        await asyncio.sleep(0.1)
+        await c2.close()
+        left2 = pending()
+        for t in asyncio.all_tasks():
+            if t not in base and t is not asyncio.current_task():
+                t.cancel()
+        return left1, n_conn, left2
+    left1, n_conn, left2 = _with_real_open(main)
+    return not left1 and n_conn == 1 and not left2, (f"tasks of the client still pending when close() returned: during a reconnect {left1} (connections opened in the end: {n_conn}), "
+                                                     f"with network map seeding {left2}")
+
+
+@finding("C14/task-alive/reconnect-scheduled-after-close", "C14")
+def f_reconnect_after_close():
+    """the status callback that is told DISCONNECTED calls close(): the fault path scheduled its reconnect all the same, a task that was
+    started after close() had returned"""
+    async def main():
+        io_, opened, make = _fake_text_client()
+        c = make()
+        base = set(asyncio.all_tasks())
+
+        async def st(s):
+            if s.name == "DISCONNECTED":
+                await c.close()
+        c.set_status_callback(st)
+        await c.connect()
+        opened[0][0].feed_eof()
+        await asyncio.sleep(0.1)
+        left = sorted(getattr(t.get_coro(), "__qualname__", "?").split(".")[-1] for t in asyncio.all_tasks()
+                      if t not in base and not t.done() and t is not asyncio.current_task())
+        for t in asyncio.all_tasks():
+            if t not in base and t is not asyncio.current_task():
+                t.cancel()
+        return c.state.name, left
+    state, left = _with_real_open(main)
+    return state == "CLOSED" and not left, f"state {state}; tasks of the client alive 0.1 s after close() returned: {left}"
+
+
 def run(keys=None):
     out = {}
     for k, (prop, fn) in FINDINGS.items():
